@@ -379,6 +379,120 @@ def strategy():
     return gen.programs(max_changes=6, max_files=4, pool=(A, B, X, A, B))
 
 
+# -- content that only an *outer* encoding could decode ------------------
+
+INNER = ('utf-8', 'ascii')
+OUTER = ('latin-1', 'cp1252', 'koi8-r')
+PLACES = ('change-preamble', 'change-meta', 'file-meta-under-file',
+          'file-meta-under-change', 'main-meta-own', 'change-preamble-own')
+
+
+def misscoped_file(inner, outer, place):
+    """(bytes, index of the section that cannot be decoded).  The section
+    in question holds bytes that are invalid in the encoding in effect for
+    it (`inner`) and fine in the encoding of a container further out."""
+    bad_text = b'caf\xe9 au lait\n'
+    bad_json = b'{"k": "caf\xe9"}\n'
+    good = b'{"k": 1}\n'
+    main = outer
+    lines = []
+
+    def header(sid, **opts):
+        s = '#%s:' % sid
+
+        if opts:
+            s += ' ' + ', '.join('%s=%s' % (k.rstrip('_'), v)
+                                 for k, v in sorted(opts.items()))
+
+        lines.append(s.encode('ascii') + b'\n')
+
+    def content(sid, data, **opts):
+        header(sid, length=len(data), **opts)
+        lines.append(data)
+
+    header('diffx', encoding=main, version='1.0')
+    index = None
+
+    if place == 'main-meta-own':
+        index = 1
+        content('.meta', bad_json, encoding=inner, format='json')
+
+    if place in ('change-preamble', 'change-meta', 'file-meta-under-change'):
+        header('.change', encoding=inner)
+    else:
+        header('.change')
+
+    n = len([l for l in lines if l.startswith(b'#')])
+
+    if place == 'change-preamble':
+        index = n
+        content('..preamble', bad_text, indent=0)
+    elif place == 'change-preamble-own':
+        index = n
+        content('..preamble', bad_text, encoding=inner, indent=0)
+    elif place == 'change-meta':
+        index = n
+        content('..meta', bad_json, format='json')
+
+    if place == 'file-meta-under-file':
+        header('..file', encoding=inner)
+    else:
+        header('..file')
+
+    n = len([l for l in lines if l.startswith(b'#')])
+
+    if place in ('file-meta-under-file', 'file-meta-under-change'):
+        index = n
+        content('...meta', bad_json, format='json')
+    else:
+        content('...meta', good, format='json')
+
+    return b''.join(lines), index
+
+
+def misscoped_chunks(tier, seed):
+    return [(i, o, p) for i in INNER for o in OUTER for p in PLACES]
+
+
+def run_misscoped(chunk, st):
+    inner, outer, place = chunk
+    ns = sut.load()
+    data, index = misscoped_file(inner, outer, place)
+    case = {'inner': inner, 'outer': outer, 'place': place}
+    recs, err = sut.read_records(data)
+
+    if err is None or len(recs) > index:
+        got = recs[index] if len(recs) > index else None
+        st.violation('content-decoded-with-an-outer-encoding',
+                     '%s under %s (%s): section %d yielded %r'
+                     % (inner, outer, place, index, got), case)
+    elif not isinstance(err, ns.DiffXParseError):
+        st.violation('undecodable-content-wrong-exception:%s'
+                     % type(err).__name__, repr(err), case)
+    elif len(recs) != index:
+        st.violation('undecodable-content-wrong-position',
+                     '%d records before the error, expected %d'
+                     % (len(recs), index), case)
+
+    try:
+        ns.DiffX.from_bytes(data)
+    except ns.DiffXParseError:
+        pass
+    except Exception as e:
+        st.violation('undecodable-content-wrong-exception:%s'
+                     % type(e).__name__, 'from_bytes: %r' % e, case)
+    else:
+        st.violation('content-decoded-with-an-outer-encoding',
+                     'from_bytes accepted %s under %s (%s)'
+                     % (inner, outer, place), case)
+
+    st.bulk(2, 2, sample=case)
+
+
+def run_misscoped_case(case, st):
+    run_misscoped((case['inner'], case['outer'], case['place']), st)
+
+
 def checks():
     return [
         EnumCheck(
@@ -398,6 +512,19 @@ def checks():
                  'only where the file bound differs.)',
             bound={'quick': 'shapes (<=1 change x <=3 files), (<=2 x <=2)',
                    'thorough': 'shapes (<=1 x <=3), (<=2 x <=3), (<=3 x <=2)'}),
+        EnumCheck(
+            'undecodable-in-scope', misscoped_chunks, run_misscoped,
+            run_case=run_misscoped_case,
+            rule='hand-framed files in which one text section holds bytes '
+                 'that are invalid in the encoding in effect for it (utf-8, '
+                 'ascii; own or inherited from the nearest container) and '
+                 'valid in the encoding of a container further out '
+                 '(latin-1, cp1252, koi8-r), at six places of the '
+                 'hierarchy: reader and from_bytes must refuse that '
+                 'section with DiffXParseError after exactly the records '
+                 'before it -- never decode it with the outer encoding; '
+                 'all non-trivial',
+            bound={'quick': '2 x 3 x 6 files', 'thorough': 'same'}),
         HypCheck(
             'random-histories', strategy, run_case,
             budget={'quick': (16, 120), 'thorough': (16, 4000)},
